@@ -85,7 +85,11 @@ func (p *WebSocketPool) Put(backend string, conn net.Conn) bool {
 		return false
 	}
 
+	// Hold the pool-map lock until the connection is stored (same lock order as Shutdown).
+	// Releasing it earlier lets a concurrent Shutdown swap the map in between: the
+	// connection would then land in an orphaned per-backend pool and never be closed.
 	p.mu.Lock()
+	defer p.mu.Unlock()
 	pool, exists := p.pools[backend]
 	if !exists {
 		pool = &connPool{
@@ -95,7 +99,6 @@ func (p *WebSocketPool) Put(backend string, conn net.Conn) bool {
 		}
 		p.pools[backend] = pool
 	}
-	p.mu.Unlock()
 
 	pool.mu.Lock()
 	defer pool.mu.Unlock()
